@@ -71,7 +71,7 @@ class Runner:
         self.work = work
         self.n = 0
 
-    def run(self, schema, tag, fail_at=None, errno_=28, mode="fail", populate_from=None, env_extra=None, cwd=None):
+    def run(self, schema, tag, fail_at=None, errno_=28, mode="fail", populate_from=None, env_extra=None, cwd=None, prepare=None):
         d = os.path.join(self.work, tag)
         shutil.rmtree(d, ignore_errors=True)
         out = os.path.join(d, "out")
@@ -79,6 +79,8 @@ class Runner:
             shutil.copytree(populate_from, out)
         else:
             os.makedirs(out)
+        if prepare:
+            prepare(out)
         env = {"PATH": os.environ.get("PATH", "/usr/bin:/bin"), "LC_ALL": "C"}
         log = os.path.join(d, "fi.log")
         if fail_at is not None:
@@ -130,12 +132,44 @@ def check_case(runner, schema, ref, k, ename, mode, populated, ref_dir):
             "problems": problems, "out": txt[-300:]}
 
 
+def obstacle_case(runner, schema, ref, kind, relp, populated, ref_dir):
+    """a path of the output tree is occupied by the wrong kind of object before the run: a directory where a generated file goes,
+    a regular file where a directory goes.  No shim: the failing call is whatever sbeppc uses to get the file in place."""
+    def prepare(out):
+        p = os.path.join(out, relp)
+        if kind == "dir-at-file":
+            if os.path.lexists(p):
+                os.remove(p)
+            os.makedirs(p)
+        else:
+            if os.path.isdir(p):
+                shutil.rmtree(p)
+            os.makedirs(os.path.dirname(p), exist_ok=True)
+            with open(p, "w") as f:
+                f.write("not a directory\n")
+    tag = "obst-%s-%d-%s" % (kind, populated, common.text_hash(schema, relp))
+    rc, txt, _calls, _fired, snap = runner.run(schema, tag, populate_from=ref_dir if populated else None, prepare=prepare)
+    problems = []
+    if rc == -999:
+        problems.append(("hang", "sbeppc did not terminate within 120 s"))
+    elif rc not in (0, 1):
+        problems.append(("crash", "sbeppc ended with status %d" % rc))
+    if rc == 0 and snap != ref:
+        bad = sorted(f for f in set(ref) | set(snap) if ref.get(f) != snap.get(f))
+        problems.append(("exit0-incomplete", "exit 0 but output differs from the unobstructed run in %d file(s), e.g. %s (%s)" % (
+            len(bad), bad[0], "missing" if bad[0] not in snap else "different content")))
+    if rc == 1 and "Error" not in txt:
+        problems.append(("no-diagnostic", "non-zero exit without an Error line"))
+    return {"kind": kind, "path": relp, "populated": populated, "rc": rc, "problems": problems, "out": txt[-300:]}
+
+
 def run(t, budget=1.0):
     res = common.Result("C20", t, level="fault_enumeration")
     res.rule = ("for each schema: count output I/O calls N with the shim, then fail call k for every k in 1..N x errno "
                 "x {fail, short-then-fail (writes)} x {fresh, populated output dir}; non-trivial = a run in which the "
-                "injected fault actually fired (distinct by schema,k,errno,mode,populated); plus determinism reruns")
-    res.assumptions = ["all output I/O of sbeppc goes through mkdir/fopen/open/write/writev (libstdc++ ofstream + std::filesystem on glibc)",
+                "injected fault actually fired (distinct by schema,k,errno,mode,populated); plus obstructed output paths without the shim "
+                "(a directory where each generated file goes, a regular file where each output directory goes) and determinism reruns")
+    res.assumptions = ["all output I/O of sbeppc goes through mkdir/fopen/open/write/writev/rename/link (libstdc++ ofstream + std::filesystem on glibc)",
                        "close() failures are not part of the property and are not injected"]
     sbeppc = common.build_sbeppc("plain")
     shim = build_injector()
@@ -145,6 +179,7 @@ def run(t, budget=1.0):
     quick = (t == "quick")
     enames = list(ERRNOS)
     tasks = []
+    obstacles = []
     per_schema = {}
     refdirs = {}
     try:
@@ -204,6 +239,14 @@ def run(t, budget=1.0):
                 continue
             n = len(calls)
             per_schema[sname] = {"io_calls": n, "files": len(ref)}
+            dirs = sorted({os.path.dirname(f) for f in ref if os.path.dirname(f)} | {os.path.dirname(os.path.dirname(f)) for f in ref if os.path.dirname(os.path.dirname(f))})
+            for oi, f in enumerate(sorted(ref)):
+                for pop in ((0, 1) if not quick else ((oi + si) % 2,)):
+                    obstacles.append((schema, si, "dir-at-file", f, pop))
+            for oi, dpath in enumerate(dirs):
+                for pop in ((0, 1) if not quick else ((oi + si) % 2,)):
+                    obstacles.append((schema, si, "file-at-dir", dpath, pop))
+            per_schema[sname]["obstacle_paths"] = len(ref) + len(dirs)
             ks = list(range(1, n + 1))
             # quick tier: every k of every schema, one rotating (errno, populated) combination per k (+ short write);
             # thorough: the full cross product
@@ -246,6 +289,25 @@ def run(t, budget=1.0):
                     res.violation(signature, {"schema": schema, "schema_xml": open(schema).read(), "k": r["k"], "errno": r["errno"],
                                               "mode": r["mode"], "populated": r["populated"]},
                                   "%s: k=%d %s" % (sname, r["k"], text))
+        with cf.ThreadPoolExecutor(max_workers=common.NCPU) as ex:
+            futs = {}
+            for (schema, si, kind, relp, pop) in obstacles:
+                if si not in refs:
+                    refs[si] = snapshot(refdirs[si])
+                futs[ex.submit(obstacle_case, runner, schema, refs[si], kind, relp, pop, refdirs[si])] = schema
+            for fu in cf.as_completed(futs):
+                schema = futs[fu]
+                r = fu.result()
+                sname = os.path.basename(schema)
+                res.count()
+                res.nontriv((sname, "obstacle", r["kind"], r["path"], r["populated"]))
+                res.cls("obstacle_%s_%s_rc%d" % (r["kind"], "populated" if r["populated"] else "fresh", r["rc"]))
+                if r["kind"] == "dir-at-file" and len([x for x in res.samples if "obstacle" in x]) < 2:
+                    res.sample({"schema": sname, "obstacle": r["kind"], "path": r["path"], "populated": r["populated"], "exit": r["rc"], "stdout_tail": r["out"]})
+                for sig, text in r["problems"]:
+                    res.violation("%s:obstacle:%s" % (sig, r["kind"]),
+                                  {"schema": schema, "schema_xml": open(schema).read(), "obstacle": r["kind"], "path": r["path"], "populated": r["populated"]},
+                                  "%s: %s at %s (%s output dir): %s" % (sname, r["kind"], r["path"], "populated" if r["populated"] else "fresh", text))
         res.extra["per_schema"] = per_schema
         res.extra["schemas"] = len(per_schema)
         res.exhaustive = True
@@ -266,6 +328,16 @@ def replay(path):
             f.write(case["schema_xml"])
         runner = Runner(sbeppc, shim, work)
         rc0, _, _, _, ref = runner.run(schema, "ref")
+        if "obstacle" in case:
+            ref_dir = os.path.join(work, "refdir")
+            os.makedirs(ref_dir)
+            for relp, data in ref.items():
+                p = os.path.join(ref_dir, relp)
+                os.makedirs(os.path.dirname(p), exist_ok=True)
+                open(p, "wb").write(data)
+            r = obstacle_case(runner, schema, ref, case["obstacle"], case["path"], case["populated"], ref_dir)
+            print(json.dumps(r, indent=1, default=str))
+            return 1 if r["problems"] else 0
         if "k" not in case:
             rc1, _, _, _, s1 = runner.run(schema, "again", cwd="/")
             ok = (rc0 == rc1 == 0 and s1 == ref)
